@@ -8,6 +8,8 @@ Model of the incentive-payout mechanism (property C19).  Core Lean only.
 * `createGuard`   x/rewards/types/tx.go:46-71 (`ValidateBasic`) + gauge.go:16-47 (`ValidateMsgCreateGauge`)
                   + gauge.go:179-208 (`CreateNewGauge`: deposit moved into the rewards module account)
 * `epochStep`     x/rewards/keeper/epochs.go:24-61      `TriggerAndUpdateEpochInfos` for one epoch record
+* `posValue`, `childValue`, `weight`, `sharesFrom`  x/liquidity/keeper/rewards.go:20-33, 113-162 (value of a position,
+                  child-pool contributions SUMMED per farmer), and
 * `shares`        x/liquidity/keeper/rewards.go:168-307 `GetFarmingRewardsData` from the per-farmer farmed values on
                   (`multiplier = Dec(alloc).Quo(total)`, `int64(math.Floor(value.Mul(multiplier).MustFloat64()))`,
                   master-pool mode: value := min(master value, child value), zero values skipped)
@@ -193,6 +195,39 @@ def sharesMaster (conv : Int → Int × Int) (alloc : Int) (lp child : List Dec)
   let el := zipMin lp child
   let S := sumL el
   if S = 0 then .ok [] else mapE (fun s => if s = 0 then .ok 0 else rewardOf conv alloc S s) el
+
+/-! ### Farmed values and master/child weights (liquidity rewards.go:20-33, 113-162, 186-253) -/
+
+/-- one farmed position as the valuation sees it: the redeemable amount of the priced asset (`x` or `y` of
+`CalculateXYFromPoolCoin`), that asset's oracle TWA and its `Decimals` -/
+structure Pos where
+  amt : Int
+  twa : Int
+  dec : Int
+  deriving Repr, DecidableEq
+
+/-- `CalcAssetPrice(asset, amt).Mul(2)`: `Dec(amt).Mul(Dec(twa)).Quo(Dec(decimals))`, doubled (50-50 pools); a missing or
+zero TWA makes `CalcAssetPrice` return zero (its error is ignored by the callers) -/
+def posValue (p : Pos) : Dec :=
+  if p.twa ≤ 0 then 0
+  else Dec.mul (Dec.quo (Dec.mul (Dec.ofInt p.amt) (Dec.ofInt p.twa)) (Dec.ofInt p.dec)) (Dec.ofInt 2)
+
+/-- `GetAggregatedChildPoolContributions` for one farmer: the SUM of the values of its positions over the child pools -/
+def childValue (ps : List Pos) : Dec := sumL (ps.map posValue)
+
+/-- a farmer of the master pool: its master-pool position and its positions in the child pools -/
+structure Farmer where
+  master : Pos
+  children : List Pos
+  deriving Repr, DecidableEq
+
+/-- reward weight in master-pool mode: `min(value farmed in the master pool, Σ child pools value farmed there)` -/
+def weight (f : Farmer) : Dec := minD (posValue f.master) (childValue f.children)
+
+/-- the whole computation from positions: plain mode weighs by the master value alone -/
+def sharesFrom (conv : Int → Int × Int) (alloc : Int) (masterMode : Bool) (fs : List Farmer) : Except String (List Int) :=
+  if masterMode then sharesMaster conv alloc (fs.map (fun f => posValue f.master)) (fs.map (fun f => childValue f.children))
+  else sharesPlain conv alloc (fs.map (fun f => posValue f.master))
 
 /-! ### Exact IEEE-754 binary64 round-to-nearest-even of a non-negative Dec (`raw / 10^18`) -/
 
